@@ -18,9 +18,9 @@ from tools.vlib import Outcome, sx
 from tools.props import c01_gen
 
 MANIFEST = {
-    "level_text": "Coq theorems (Properties/C01.v, no axioms) about a chunk model of the generator (template text with typed holes, every .tera template of both modes transcribed; naming, serde scanners, unraw identifiers, type printer / repaired top-level-comma parser / renderers / repaired array prefixing, Zod schema builder, the ts_key filter): for EVERY byte string the key printed by ts_key is an ECMAScript identifier name (C01_rust_ident_is_ident) or a well-formed quoted literal (C01_key_chunk_ok, C01_member_access_ok), listener names are legal identifiers for every event name, escape_js output is a well-formed literal body for every byte string (validator messages, enum literals), command / type names are legal outside the remaining recorded classes (reserved words, digit-first), and a token-level skeleton theorem for the plain-mode interface template (bare or quoted keys): good holes imply that the specification parser accepts the item and the result is well formed. Tied to the repository on every run: the real CLI generates both modes for adversarial projects; every written file must pass the extracted oracle (parse_module + wf_module_b incl. a statement grammar for function bodies) and equal the model's token stream token for token.",
+    "level_text": "Coq theorems (Properties/C01.v, no axioms) about a chunk model of the generator (template text with typed holes, every .tera template of both modes transcribed; naming, serde scanners, unraw identifiers, type printer / repaired top-level-comma parser / renderers / repaired array prefixing, Zod schema builder, the ts_key filter): for EVERY byte string the key printed by ts_key is an ECMAScript identifier name (C01_rust_ident_is_ident) or a well-formed quoted literal (C01_key_chunk_ok, C01_member_access_ok), listener names are legal identifiers for every event name, escape_js output is a well-formed literal body for every byte string (validator messages, enum literals), command / type names are legal outside the remaining recorded classes (reserved words, digit-first), and, at TEXT level, the three plain-mode files as a whole: for every project whose declared names are binding names and whose types have identifier leaves and nesting within the parser budget, the text of types.ts (channel import, params interfaces, interfaces, enum aliases), of commands.ts (imports, wrapper functions with their bodies) and of index.ts - the prefix followed by any selection of the items in any order - lexes chunk by chunk to the token rendering, is accepted by parse_module and is well formed (C01_plain_types_text_ok, C01_plain_commands_text_ok, C01_index_text_ok); the run-time oracle wf_module_b is proved equivalent to a Prop-level specification (C01_wf_module_reflect). Tied to the repository on every run: the real CLI generates both modes for adversarial projects; every written file must pass the extracted oracle (parse_module + wf_module_b incl. a statement grammar for function bodies) and equal the model's token stream token for token.",
     "design_ref": "DESIGN.md section 5 C01, section 12",
-    "level_note": "Proved for all inputs: key printing (ts_key) and member access, listener names, escape_js literals, command / type names outside the remaining classes; the type-hole theorems - token level C01_type_hole_render (every TypeStructure with identifier leaves and nesting < 64 renders to tokens that the specification type parser consumes up to any stop token, with a well-formed result) and TEXT level C01_type_hole_lex / C01_type_hole_text (the specification lexer turns the rendered text into exactly those tokens in front of every admissible continuation, so the boolean hole predicate hole_ok HType holds; built on Proofs/LexFacts.v); token-level skeleton theorems with all hole premises discharged for the plain interface template (C01_interface_tokens_ok), the params interface incl. Channel<T> members and the index signature (C01_params_interface_tokens_ok), the enum alias (C01_enum_alias_ok) and the whole of index.ts (C01_index_tokens_ok). Still partial: for the fixed template text and the name / key / literal holes, that the lexer turns the model's text into the token renderings (C01_lex_compositional_full_statement) is evaluated on every generated case at run time and on samples inside Coq, not proved (for type holes it is proved). Not covered by a skeleton theorem (C01_skeleton_full_statement): the Zod schema templates, wrapper functions with bodies, listeners; the parsed type is proved well formed, not proved to be the intended type (C05). For those the run-time oracle and the token-for-token correspondence decide every generated case. wf_module_b has no separate Prop-level specification (no reflection lemma). Non-ASCII identifier characters are judged by an explicit ID_Start / ID_Continue table (ranges in Spec/C01Wf.v). The TypeScript grammar subset (Spec/TsLex.v, TsModule.v, C01Wf.v) is a specification written from the language definition; no TypeScript compiler exists in the sandbox. Validator attributes and the event list are observed from the real analysis (public API) and fed to the model (C11/C12's subject).",
+    "level_note": "Proved for all inputs: key printing (ts_key) and member access, listener names, escape_js literals, command / type names outside the remaining classes; the type-hole theorems - token level C01_type_hole_render (every TypeStructure with identifier leaves and nesting < 64 renders to tokens that the specification type parser consumes up to any stop token, with a well-formed result) and TEXT level C01_type_hole_lex / C01_type_hole_text (the specification lexer turns the rendered text into exactly those tokens in front of every admissible continuation, so the boolean hole predicate hole_ok HType holds; built on Proofs/LexFacts.v); token-level skeleton theorems with all hole premises discharged for the plain interface template (C01_interface_tokens_ok), the params interface incl. Channel<T> members and the index signature (C01_params_interface_tokens_ok), the enum alias (C01_enum_alias_ok) and the whole of index.ts (C01_index_tokens_ok). Round 7: the plain-mode command wrapper at token level, signature AND body through the statement grammar (C01_skeleton_wrapper; on the model with all hole premises discharged C01_wrapper_tokens_ok); the text function add_types_prefix applied to any rendered type with identifier leaves is the structural prefixing and lexes to its token rendering (C01_prefix_text_structural, C01_ret_text_lex, C01_type_hole_prefixed_render); lexing of name / key / literal holes for every good hole in front of every admissible continuation - literal holes for every well-formed body incl. escapes (C01_str_hole_lex, C01_name_key_hole_lex, C01_hole_chunk_lex) - and the chain rule C01_lex_compositional_chain; TEXT level for whole items and files: C01_interface_text_ok, C01_enum_item_text_ok, C01_params_item_text_ok, C01_wrapper_item_text_ok, C01_items_text_ok (any sequence of good items is an accepted well-formed module), and C01_skeleton_full_statement for the plain-mode types.ts, commands.ts and index.ts with the hole premises replaced by budget predicates (C01_plain_types_text_ok, C01_plain_commands_text_ok, C01_index_text_ok); reflection: str_body_ok = the inductive literal grammar StrBody, tok_ok, item_ok and wf_module_b = the Prop-level WfModule of Spec/C01WfProp.v (C01_str_body_reflect, C01_tok_ok_reflect, C01_item_ok_reflect, C01_wf_module_reflect; ty_ok = the inductive TyOk, C01_ty_ok_reflect; ex_ok / body_ok have no Prop-level counterpart). Still partial (C01_skeleton_remaining_statement): the Zod item templates and Zod wrappers (zod-mode types.ts / commands.ts) and the listeners of events.ts have no skeleton theorem - for those the run-time oracle and the token-for-token correspondence decide every generated case. Both full statements as originally stated are REFUTED inside Coq: C01_lex_compositional_general_refuted (two good name holes side by side merge; the provable form is the chain rule, proved for all chunks of the three plain-mode files and per hole class incl. numeric keys C01_key_hole_lex_all; Zod expression holes have no lexing lemma) and C01_skeleton_hole_premise_refuted (hole_ok of every hole is not enough: a type_mappings target ending in a line comment is a good type hole on its own and swallows the rest of the wrapper line; the theorems use budget predicates instead and the remainder is restated with a no-comment premise). The budget predicates exclude the recorded classes (reserved-word / digit-first names, path-qualified leaves). The parsed type is proved well formed, not proved to be the intended type (C05). Non-ASCII identifier characters are judged by an explicit ID_Start / ID_Continue table (ranges in Spec/C01Wf.v). The TypeScript grammar subset (Spec/TsLex.v, TsModule.v, C01Wf.v) is a specification written from the language definition; no TypeScript compiler exists in the sandbox. Validator attributes and the event list are observed from the real analysis (public API) and fed to the model (C11/C12's subject).",
     "technique": "Rocq/Coq proof over hand-written model + correspondence check (extracted OCaml oracle and model vs real CLI binary and Rust harness)"
 }
 
